@@ -88,12 +88,15 @@ func setCtx(yylex yyLexer, expr ast.Expr, ctx ast.ExprContext) {
 		yylex.(*yyLex).SyntaxErrorf("can't %s %s", action, expr_name)
 		return
 	}
-	// The elements of a tuple or list target must be assignable too
+	// The elements of a tuple or list target and the operand of a
+	// starred target must be assignable too
 	switch x := expr.(type) {
 	case *ast.Tuple:
 		setCtxs(yylex, x.Elts, ctx)
 	case *ast.List:
 		setCtxs(yylex, x.Elts, ctx)
+	case *ast.Starred:
+		setCtx(yylex, x.Value, ctx)
 	}
 	setctxer.SetCtx(ctx)
 }
